@@ -873,6 +873,123 @@ Proof.
 Qed.
 
 (* ---------- the theorem ---------- *)
+(* ---------- union ---------- *)
+Lemma nget_proj (f : nrow) (L : list dname) n : In n L -> nget (map (fun k => (k, nget f k)) L) n = nget f n.
+Proof.
+  induction L as [|k L IH]; intros H; [destruct H|]. simpl.
+  destruct (dname_eqb k n) eqn:E; [apply dname_eqb_eq in E; subst; reflexivity|].
+  destruct H as [H|H]; [subst; rewrite dname_eqb_refl in E; discriminate E|]. apply IH. exact H.
+Qed.
+
+Lemma get_map_self (g : uid -> value) L u : In u L -> get (map (fun x => (x, g x)) L) u = g u.
+Proof.
+  induction L as [|y L IH]; intros H; [destruct H|]. simpl.
+  destruct (N.eqb_spec y u) as [E|E]; [subst; reflexivity|]. destruct H as [H|H]; [contradiction|]. apply IH. exact H.
+Qed.
+
+Lemma pname_self ns L u : In u L -> pname (map (fun x => (x, pname ns x)) L) u = pname ns u.
+Proof.
+  unfold pname at 1. induction L as [|y L IH]; intros H; [destruct H|]. simpl.
+  destruct (N.eqb_spec u y) as [E|E]; [subst; reflexivity|]. destruct H as [H|H]; [congruence|]. apply IH. exact H.
+Qed.
+
+Lemma assoc_s_sel_found (ns : names) n : forall L,
+  In n (map (fun x => uname (pname ns x)) L) ->
+  exists ur, assoc_s n (map (fun x => (uname (pname ns x), x)) L) = Some ur /\ In ur L /\ uname (pname ns ur) = n.
+Proof.
+  induction L as [|y L IH]; intros H; [destruct H|]. simpl.
+  destruct (String.eqb_spec n (uname (pname ns y))) as [E|E].
+  - exists y. repeat split; [left; reflexivity|symmetry; exact E].
+  - destruct H as [H|H]; [simpl in H; congruence|]. destruct (IH H) as [ur [A [B C]]].
+    exists ur. repeat split; [exact A|right; exact B|exact C].
+Qed.
+
+Lemma pl_dedup_rel (Q : row -> nrow -> Prop) (vis : row -> list value) :
+  (forall r f, Q r f -> vis r = map snd f) ->
+  forall all allP seen, Forall2 Q all allP -> Forall2 Q (dedup_rows seen vis all) (pl_dedup seen allP).
+Proof.
+  intros HQ. induction all as [|r all IH]; intros allP seen H; inversion H as [|? f ? allP' Hrf Hrest]; subst; simpl; [constructor|].
+  rewrite <- (HQ r f Hrf). destruct (existsb (values_eqb (vis r)) seen); [apply IH; exact Hrest|].
+  constructor; [exact Hrf|apply IH; exact Hrest].
+Qed.
+
+Lemma pl_dedup_subset : forall rs seen f, In f (pl_dedup seen rs) -> In f rs.
+Proof.
+  induction rs as [|x rs IH]; intros seen f H; [destruct H|]. simpl in H.
+  destruct (existsb _ seen); [right; apply (IH _ _ H)|]. destruct H as [H|H]; [left; exact H|right; apply (IH _ _ H)].
+Qed.
+
+Lemma user_uname dn : is_user dn = true -> dn = User (uname dn).
+Proof. destruct dn; simpl; [reflexivity|discriminate]. Qed.
+
+Lemma punion_case sL sR stl str distinct :
+  PInv sL stl -> PAux stl -> PInv sR str -> PAux str ->
+  (forall u, In u (p_select stl) ->
+     In (uname (pname (p_ns stl) u)) (map (fun x => uname (pname (p_ns str) x)) (p_select str))) ->
+  PInv (do_union sL sR distinct) (pl_union stl str distinct) /\ PAux (pl_union stl str distinct).
+Proof.
+  intros [Rl Sl Gl] Al [Rr Sr Gr] Ar Hnames.
+  set (lsel := p_select stl) in *. set (nsl := p_ns stl) in *. set (nsr := p_ns str) in *.
+  set (lnames := map (pname nsl) lsel).
+  set (proj := fun f : nrow => map (fun n => (n, nget f n)) lnames).
+  set (ns' := map (fun u => (u, pname nsl u)) lsel).
+  assert (Hdom : dom ns' = lsel). { unfold dom, ns'. rewrite map_map. simpl. apply map_id. }
+  assert (Hpn : forall u, In u lsel -> pname ns' u = pname nsl u). { intros u Hu. apply pname_self. exact Hu. }
+  assert (Hln : forall u, In u lsel -> In (pname nsl u) lnames). { intros u Hu. apply in_map. exact Hu. }
+  set (vis := fun x : row => map (fun p : string * uid => get x (snd p)) (sel sL)).
+  assert (Evis : forall x, vis x = map (get x) lsel).
+  { intros x. unfold vis. rewrite Sl, map_map. reflexivity. }
+  assert (Eproj : forall f, map snd (proj f) = map (fun u => nget f (pname nsl u)) lsel).
+  { intros f. unfold proj, lnames. rewrite !map_map. reflexivity. }
+  set (Q := fun (r : row) (f : nrow) => prel ns' r f /\ vis r = map snd f).
+  (* left rows *)
+  assert (QL : Forall2 Q (rows sL) (map proj (p_rows stl))).
+  { apply Forall2_map_r. eapply Forall2_impl'; [|exact Rl]. intros r f Hrf. split.
+    - intros u Hu. rewrite Hdom in Hu. rewrite (Hpn u Hu). unfold proj. rewrite (nget_proj f lnames _ (Hln u Hu)).
+      apply Hrf. apply (pa_sel stl Al). exact Hu.
+    - rewrite Evis, Eproj. apply map_ext_in. intros u Hu. apply Hrf. apply (pa_sel stl Al). exact Hu. }
+  (* right rows: converted by name *)
+  set (conv := fun rr : row => map (fun p : string * uid => (snd p, match assoc_s (fst p) (sel sR) with Some ur => get rr ur | None => VErr end)) (sel sL)).
+  assert (Econv : forall rr fr, prel nsr rr fr -> forall u, In u lsel -> get (conv rr) u = nget fr (pname nsl u)).
+  { intros rr fr Hrf u Hu. unfold conv. rewrite Sl, map_map. cbn [fst snd].
+    rewrite (get_map_self (fun x => match assoc_s (uname (pname nsl x)) (sel sR) with Some ur => get rr ur | None => VErr end) lsel u Hu).
+    rewrite Sr. destruct (assoc_s_sel_found nsr _ _ (Hnames u Hu)) as [ur [Ea [Hin En]]]. fold nsr. rewrite Ea.
+    rewrite (Hrf ur (pa_sel str Ar ur Hin)).
+    pose proof (user_uname _ (pa_sel_user str Ar ur Hin)) as U1. pose proof (user_uname _ (pa_sel_user stl Al u Hu)) as U2.
+    change (p_ns str) with nsr in U1. change (p_ns stl) with nsl in U2. rewrite U1, U2, En. reflexivity. }
+  assert (QR : Forall2 Q (map conv (rows sR)) (map proj (p_rows str))).
+  { apply Forall2_map_l. apply Forall2_map_r. eapply Forall2_impl'; [|exact Rr]. intros rr fr Hrf. split.
+    - intros u Hu. rewrite Hdom in Hu. rewrite (Hpn u Hu). unfold proj. rewrite (nget_proj fr lnames _ (Hln u Hu)).
+      apply (Econv rr fr Hrf u Hu).
+    - rewrite Evis, Eproj. apply map_ext_in. intros u Hu. apply (Econv rr fr Hrf u Hu). }
+  assert (QA : Forall2 Q (rows sL ++ map conv (rows sR)) (map proj (p_rows stl) ++ map proj (p_rows str))).
+  { apply Forall2_app; assumption. }
+  assert (QF : Forall2 Q (if distinct then dedup_rows [] vis (rows sL ++ map conv (rows sR)) else rows sL ++ map conv (rows sR))
+                         (if distinct then pl_dedup [] (map proj (p_rows stl) ++ map proj (p_rows str)) else map proj (p_rows stl) ++ map proj (p_rows str))).
+  { destruct distinct; [|exact QA]. apply (pl_dedup_rel Q vis); [|exact QA]. intros r f [_ H]. exact H. }
+  split.
+  - constructor.
+    + cbn [rows do_union p_rows pl_union p_ns]. fold lsel nsl lnames proj ns' conv vis.
+      eapply Forall2_impl'; [|exact QF]. intros r f [H _]. exact H.
+    + cbn [sel do_union p_ns p_select pl_union]. fold lsel nsl ns'. rewrite Sl.
+      apply map_ext_in. intros u Hu. rewrite (Hpn u Hu). reflexivity.
+    + reflexivity.
+  - constructor; cbn [p_rows p_ns p_select p_part p_ctr p_keys pl_union]; fold lsel nsl lnames proj ns'.
+    + intros u Hu. rewrite Hdom. exact Hu.
+    + intros u Hu. destruct Hu.
+    + intros un Hun. unfold ns' in Hun. apply in_map_iff in Hun. destruct Hun as [u [<- Hu]]. cbn [snd].
+      apply pname_bounded; [exact Al|apply (pa_sel stl Al); exact Hu].
+    + intros k Hk. unfold lnames in Hk. apply in_map_iff in Hk. destruct Hk as [u [<- Hu]].
+      apply pname_bounded; [exact Al|apply (pa_sel stl Al); exact Hu].
+    + intros f kv Hf Hkv.
+      assert (Hf' : In f (map proj (p_rows stl) ++ map proj (p_rows str))).
+      { destruct distinct; [apply (pl_dedup_subset _ _ _ Hf)|exact Hf]. }
+      apply in_app_or in Hf'. destruct Hf' as [Hf'|Hf']; apply in_map_iff in Hf'; destruct Hf' as [f0 [<- _]];
+        unfold proj in Hkv; apply in_map_iff in Hkv; destruct Hkv as [n [<- Hn]]; exact Hn.
+    + intros u Hu. rewrite Hdom in Hu. rewrite (Hpn u Hu). apply Hln. exact Hu.
+    + intros u Hu. rewrite (Hpn u Hu). apply (pa_sel_user stl Al u Hu).
+Qed.
+
 Theorem pl_compile_invariant d : forall a st,
   pl_compile d a = Some st -> pflat_ok d a = true -> PInv (sem_ref d a) st /\ PAux st.
 Proof.
@@ -914,7 +1031,15 @@ Proof.
   - destruct m as [m|]; [simpl in C; discriminate C|]. simpl in C, F. cbn [sem_ref do_alias]. apply IH; assumption.
   - simpl in C. discriminate C.
   - simpl in C. discriminate C.
-  - simpl in C. discriminate C.
+  - cbn [pl_compile] in C. cbn [pflat_ok] in F.
+    destruct (pl_compile d l) as [stl|] eqn:El; [|discriminate C]. destruct (pl_compile d r) as [str|] eqn:Er; [|discriminate C].
+    inversion C; subst; clear C.
+    apply andb_prop in F. destruct F as [F Fn]. apply andb_prop in F. destruct F as [Fl Fr].
+    apply andb_prop in Fn. destruct Fn as [_ Fn].
+    destruct (IHl stl eq_refl Fl) as [Il Al]. destruct (IHr str eq_refl Fr) as [Ir Ar].
+    cbn [sem_ref]. apply punion_case; try assumption.
+    intros u Hu. rewrite forallb_forall in Fn. specialize (Fn u Hu). unfold mem_s in Fn.
+    apply existsb_exists in Fn. destruct Fn as [n [Hn E]]. apply String.eqb_eq in E. subst n. exact Hn.
 Qed.
 
 (* POLARS COMPILE CORRECTNESS: the frame exported by the transcription of the Polars compile_ast is the
